@@ -305,7 +305,7 @@ fn check_emitters(run: &Run, cases: u64) {
         let mut p = GenParams::small(o.block, o.cap);
         p.target_entries = 8 + rng.below(30) as usize;
         p.max_depth = 4;
-        p.ctrl_names = run.tier == Tier::Thorough;
+        p.ctrl_names = true;
         // metadata is C01's business; keep it plain here
         p.hostile_mtimes = false;
         p.hostile_modes = false;
